@@ -242,3 +242,23 @@ package coroutines
 //@ ensures [await C08 C10] err == nil ==> result0 != nil && result0.Store != nil && len(result0.Store.Results) >= 1 && result0.Store.Results[0] != nil
 //@ ensures [await C08 C10] err == nil ==> (result0.Store.Results[0].Kind == t_aio.CreatePromise && result0.Store.Results[0].CreatePromise != nil) || (result0.Store.Results[0].Kind == t_aio.CreatePromiseAndTask && result0.Store.Results[0].CreatePromiseAndTask != nil)
 //@ ensures [await C08 C10] err != nil ==> result0 == nil
+
+// Search (C14): the page is what the store returned for the request's filter, at most limit promises, each
+// reported in its effective state (a stored-pending promise whose timeout has passed makes the search time it
+// out and run again); a cursor is present exactly when the store returned a full page and then carries the
+// same filter and the sort id of the last row. K is an arbitrary index into the page.
+//@ func SearchPromises
+//@ props C14
+//@ ghostdb coroutine
+//@ nopanic C13
+//@ ghost K int
+//@ elem awaiting assume elem != nil
+//@ requires c != nil && r != nil && r.SearchPromises != nil && r.SearchPromises.Id != "" && r.SearchPromises.Limit > 0 && r.SearchPromises.States != nil
+//@ loop 1 invariant 0 <= K && K < len(promises) ==> promises[K] != nil && (len(awaiting) == 0 && promises[K].State == promise.Pending ==> now0() < promises[K].Timeout)
+//@ loop 1 invariant len(promises) <= rangeindex1 + 1 && len(awaiting) >= 0
+//@ ensures (res != nil) != (err != nil)
+//@ ensures err == nil ==> res.Kind == t_api.SearchPromises && res.SearchPromises != nil && res.SearchPromises.Status == t_api.StatusOK
+//@ ensures err == nil ==> len(res.SearchPromises.Promises) <= r.SearchPromises.Limit
+//@ ensures err == nil && 0 <= K && K < len(res.SearchPromises.Promises) ==> res.SearchPromises.Promises[K] != nil
+//@ ensures err == nil && 0 <= K && K < len(res.SearchPromises.Promises) && res.SearchPromises.Promises[K].State == promise.Pending ==> linearizes(T < res.SearchPromises.Promises[K].Timeout)
+//@ ensures err == nil && res.SearchPromises.Cursor != nil ==> res.SearchPromises.Cursor.Next != nil && res.SearchPromises.Cursor.Next.Id == r.SearchPromises.Id && res.SearchPromises.Cursor.Next.Limit == r.SearchPromises.Limit && sameslice(res.SearchPromises.Cursor.Next.States, r.SearchPromises.States) && res.SearchPromises.Cursor.Next.Tags == r.SearchPromises.Tags && res.SearchPromises.Cursor.Next.SortId != nil
